@@ -388,7 +388,9 @@ func (e *Exec) sliceElem(sl *SliceV, i int) Value {
 	v := a.E[sl.Off+i]
 	if _, isLazy := v.(*LazyV); isLazy {
 		m := e.force(v)
-		e.storeRaw(&PtrV{O: sl.O, Path: appendPath(sl.P, sl.Off+i)}, m)
+		if e.mergeDepth == 0 {
+			e.storeRaw(&PtrV{O: sl.O, Path: appendPath(sl.P, sl.Off+i)}, m)
+		}
 		return m
 	}
 	return v
